@@ -1,6 +1,7 @@
 package main
 
 import (
+	"os"
 	"fmt"
 	"go/token"
 	"go/types"
@@ -199,6 +200,14 @@ func (c *Ctx) idxRule(rule string) {
 			}
 			construct := fmt.Sprintf("%s: index %s of decoded slice %s", fname(fn), idxString(idx), name)
 			safe, why := indexSafe(in, slice, idx, baseMin)
+			if !safe {
+				// the dominating-test argument failed; try the path argument: every path from the
+				// function's entry to this index takes an edge that establishes a sufficient length
+				// (branches steered by one mode flag are followed consistently)
+				if k, isK := constInt(idx); isK && k >= 0 && pathIndexSafe(fn, in, slice, k) {
+					safe, why = true, "every path to the index passes a length test establishing len > "+itoa(k)
+				}
+			}
 			c.check(safe, rule, construct, c.ipos(in), why, why+" (a peer-chosen params array can make this index out of range and crash the process)")
 		})
 	}
@@ -645,35 +654,7 @@ func (c *Ctx) execGateRule(rule string) {
 		c.und(rule, fname(r.FnExec)+": frame decode", p.pos(r.FnExec.Pos()), "no decode of an inbound frame found in the frame executor's call cone")
 		return
 	}
-	// nilSideVeto: forbid the edges on which error value e is known to be nil
-	nilSideVeto := func(e ssa.Value) func(*ssa.BasicBlock, int) bool {
-		return func(b *ssa.BasicBlock, k int) bool {
-			iff, ok := b.Instrs[len(b.Instrs)-1].(*ssa.If)
-			if !ok {
-				return true
-			}
-			bo, ok := iff.Cond.(*ssa.BinOp)
-			if !ok || (bo.Op != token.NEQ && bo.Op != token.EQL) {
-				return true
-			}
-			var other ssa.Value
-			if isNilConst(bo.Y) {
-				other = bo.X
-			} else if isNilConst(bo.X) {
-				other = bo.Y
-			} else {
-				return true
-			}
-			if !c.isErrOf(other, e) {
-				return true
-			}
-			nilSide := 1
-			if bo.Op == token.EQL {
-				nilSide = 0
-			}
-			return k != nilSide
-		}
-	}
+	nilSideVeto := func(e ssa.Value) func(*ssa.BasicBlock, int) bool { return c.errEdgeVeto(e, true) }
 	search := func(from ssa.Instruction, target, avoid ipred, veto func(*ssa.BasicBlock, int) bool) ssa.Instruction {
 		s := newIPSearch(target, avoid)
 		s.up = true
@@ -1234,4 +1215,94 @@ func blockLocalValue(v ssa.Value) ssa.Value {
 		v = last.Val
 	}
 	return v
+}
+
+// errEdgeVeto: an edge filter that forbids the CFG edges on which error value e is known to be
+// nil (vetoNil) or known to be non-nil (!vetoNil).
+func (c *Ctx) errEdgeVeto(e ssa.Value, vetoNil bool) func(*ssa.BasicBlock, int) bool {
+	return func(b *ssa.BasicBlock, k int) bool {
+		iff, ok := b.Instrs[len(b.Instrs)-1].(*ssa.If)
+		if !ok {
+			return true
+		}
+		bo, ok := iff.Cond.(*ssa.BinOp)
+		if !ok || (bo.Op != token.NEQ && bo.Op != token.EQL) {
+			return true
+		}
+		var other ssa.Value
+		if isNilConst(bo.Y) {
+			other = bo.X
+		} else if isNilConst(bo.X) {
+			other = bo.Y
+		} else {
+			return true
+		}
+		if !c.isErrOf(other, e) {
+			return true
+		}
+		nilSide := 1
+		if bo.Op == token.EQL {
+			nilSide = 0
+		}
+		if vetoNil {
+			return k != nilSide
+		}
+		return k == nilSide
+	}
+}
+
+// pathIndexSafe: no path from fn's entry reaches the index instruction `at` without taking a branch
+// edge on which len(slice) > k is known.
+func pathIndexSafe(fn *ssa.Function, at ssa.Instruction, slice ssa.Value, k int64) bool {
+	if len(fn.Blocks) == 0 {
+		return false
+	}
+	veto := func(b *ssa.BasicBlock, succ int) bool {
+		iff, ok := b.Instrs[len(b.Instrs)-1].(*ssa.If)
+		if !ok {
+			return true
+		}
+		bo, ok := curFacts.aliasOf(iff.Cond).(*ssa.BinOp)
+		if !ok {
+			return true
+		}
+		op, L, R := bo.Op, bo.X, bo.Y
+		switch op {
+		case token.LSS, token.LEQ, token.GTR, token.GEQ, token.EQL, token.NEQ:
+		default:
+			return true
+		}
+		if _, isLen := lenOf(L); !isLen {
+			if _, isLen2 := lenOf(R); isLen2 {
+				op, L, R = flip(op), R, L
+			}
+		}
+		ls, isLen := lenOf(L)
+		if !isLen || !sameVal(ls, slice) {
+			return true
+		}
+		cst, isK := constInt(stripConvInt(R))
+		if !isK {
+			return true
+		}
+		if succ == 1 {
+			op = negate(op)
+		}
+		switch op {
+		case token.GTR:
+			return !(cst >= k)
+		case token.GEQ, token.EQL:
+			return !(cst > k)
+		}
+		return true
+	}
+	s := newIPSearch(func(x ssa.Instruction) bool { return x == at }, nil)
+	s.flat = true
+	s.edgeOK = veto
+	s.seen[fmt.Sprintf("%p|", fn.Blocks[0])] = true
+	res := s.scan(fn.Blocks[0], 0, nil)
+	if os.Getenv("JRP_DEBUG_IDX") != "" {
+		fmt.Printf("pathIndexSafe %s k=%d reach=%v visited=%d\n", fname(fn), k, res, s.visited)
+	}
+	return !res
 }
